@@ -390,6 +390,12 @@ def controller_facts(csrc, src):
                 body = [ast.unparse(s) for s in node.body if not _is_log(s)]
                 if body != ['self.ike_sas.append(ike_sa.new_ike_sa)', 'ike_sa.new_ike_sa = None']:
                     csrc.fail(node, f'successor registration body changed: {body}')
+            if t == 'new_ike_sa and ike_sa.state == IkeSa.State.INITIAL':
+                # the responder IkeSa created for an IKE_SA_INIT request that was then ignored is dropped again
+                body = [ast.unparse(s) for s in node.body if not _is_log(s)]
+                if body != ['self.ike_sas.remove(ike_sa)', 'return reply'] or node.orelse:
+                    csrc.fail(node, f'drop-ignored body changed: {body}')
+                found['drop_ignored'] = expr_to_gallina(csrc, node.test.values[1], env)[0]
             if t == 'ike_sa.state == IkeSa.State.DELETED':
                 found['remove_deleted'] = expr_to_gallina(csrc, node.test, env)[0]
                 body = [ast.unparse(s) for s in node.body if not _is_log(s)]
@@ -398,11 +404,31 @@ def controller_facts(csrc, src):
     for k in ('my_spi', 'is_init_request', 'arm_cookie', 'register_successor', 'remove_deleted'):
         if k not in found:
             raise TranslateError(f'ikesacontroller.py: dispatch_message: could not find {k}')
-    # order: append of the new responder happens before process_message, and the three post-steps in order
-    idx = [text.find(x) for x in ('self.ike_sas.append(ike_sa)', 'ike_sa.process_message(data)',
-                                  'self.ike_sas.append(ike_sa.new_ike_sa)', 'ike_sa.delete_child_sas()')]
+    # a tree without the branch (the pinned tree before fix 73b0c79) keeps every fresh entry
+    found.setdefault('drop_ignored', 'false')
+    # order: append of the new responder happens before process_message, and the post-steps in order
+    marks = ['self.ike_sas.append(ike_sa)', 'ike_sa.process_message(data)']
+    if found['drop_ignored'] != 'false':
+        marks.append('self.ike_sas.remove(ike_sa)\n        return reply')
+    marks += ['self.ike_sas.append(ike_sa.new_ike_sa)', 'ike_sa.delete_child_sas()']
+    idx = [text.find(x) for x in marks]
     if -1 in idx or idx != sorted(idx):
         raise TranslateError('ikesacontroller.py: dispatch_message: statement order changed')
+    # the top-level statements of dispatch_message are exactly the ones the model has a clause for
+    shape = []
+    for st_ in _stmts(fn):
+        if isinstance(st_, ast.If):
+            shape.append('If:' + ast.unparse(st_.test)[:60])
+        else:
+            shape.append(type(st_).__name__ + ':' + ast.unparse(st_).split('\n')[0][:40])
+    want = ['Try:try:', 'Assign:new_ike_sa = False',
+            'If:header.exchange_type == Message.Exchange.IKE_SA_INIT and hea', 'Try:try:']
+    if found['drop_ignored'] != 'false':
+        want.append('If:new_ike_sa and ike_sa.state == IkeSa.State.INITIAL')
+    want += ['If:ike_sa.state in (IkeSa.State.REKEYED, IkeSa.State.DEL_AFTER_',
+             'If:ike_sa.state == IkeSa.State.DELETED', 'Return:return reply']
+    if shape != want:
+        raise TranslateError(f'ikesacontroller.py: dispatch_message: top-level statements changed: {shape}')
     init = csrc.func('IkeSaController.__init__')
     th = [s for s in init.body if isinstance(s, ast.Assign) and ast.unparse(s.targets[0]) == 'self.cookie_threshold']
     if len(th) != 1:
@@ -1315,6 +1341,7 @@ def translate(ctx=None):
     L.append(f'Definition dispatch_arm_cookie (halfopen : Z) : bool := {ctl["arm_cookie"]}.')
     L.append(f'Definition dispatch_register_successor (st : Z) (has_successor : bool) : bool := {ctl["register_successor"]}.')
     L.append(f'Definition dispatch_remove (st : Z) : bool := {ctl["remove_deleted"]}.')
+    L.append(f'Definition dispatch_drop_ignored (st : Z) : bool := {ctl["drop_ignored"]}.')
     L.append('\n(* cookie check of _process_ike_sa_negotiation_request (it precedes every negotiation step) *)')
     L.append(f'Definition cookie_reject (ncookies : Z) (first_equal : bool) : bool := {cook["cookie_reject"]}.')
     L.append(f'Definition N_COOKIE : Z := {cook["COOKIE"]}.')
